@@ -275,3 +275,7 @@ mod test {
         assert!(hyper.sf(13) < f64::EPSILON);
     }
 }
+
+#[cfg(kani)]
+#[path = "/verif/kani/statrs.rs"]
+mod verif_kani;
